@@ -30,6 +30,18 @@ UNITS = [
            bound="4 meta-models with 2-3 independent errors of the same phase (three unsupported elements in one "
                  "docstring, two unknown types, two dangling parents, two reserved names): every error must be mentioned "
                  "in the report, which must be a headline ending in ':' followed by '* ' entries", args={}),
+    # C03 over *configurations* (snippet directories, arguments, targets): the target mains are outside the verifier's
+    # reach (skeleton scans in contracts/scans.py, contracts/scans_c03.py); this unit runs them
+    Native("exit status and report format over snippet directories, arguments and targets", ["C03", "C02"],
+           "native.c03cli:bounded", kind="bounded",
+           bound="the 8 targets x (complete snippet set; each of the 8 snippets removed; each snippet replaced by each of "
+                 "8 (quick) / 27 (thorough) unusable contents; empty snippet directory; a model with a method that is "
+                 "not implementation-specific) + 7 argument cases of main.execute (missing / misplaced model, snippet "
+                 "and output paths, a path ending in a line break): every run must either announce the output and exit "
+                 "with 0 and an empty stderr, or exit with 1 and write one headline line ending in ':' followed by "
+                 "'* ' entries -- never raise; 9 of the cases are repeated through `python -m aas_core_codegen` in a "
+                 "child process, whose exit status has to be that of execute",
+           args={"garbage": 8}, thorough_args={"garbage": 27}, timeout_s=1800),
     # C01 as a whole: parse/_translate.py (4 000 lines) and intermediate/_translate.py (5 000 lines) are covered only by
     # *assumed* contracts at the level of load_model (contracts/core.py); this sweep is the bounded evidence behind
     # that assumption: it found 18 crashes on the pinned tree (all repaired, see known_findings.json).
